@@ -250,7 +250,66 @@ class SizedPolicy(RecordingPolicy):
     return len(self.deny)
 
 
+class ModuleDenyPolicy(RecordingPolicy):
+  """Approves symbols by the MODULE they are imported from (denies whole modules)."""
+
+  def __init__(self, deny_modules=()):
+    super().__init__()
+    self.deny_modules = set(deny_modules)
+
+  def allows_import(self, module, symbol):
+    self.import_calls.append((module, symbol))
+    return module not in self.deny_modules
+
+
+def run_migrated(case):
+  """Documents written when Partial / ArgFactory lived in another module name the OLD module; the
+  loader imports them from where they live now. Whatever module a symbol is imported from, the
+  supplied policy has approved that module."""
+  r = random.Random(case['seed'])
+  btype = r.choice([fdl.Partial, fdl.ArgFactory])
+  inner = btype(lit, p=r.randint(0, 9))
+  cfg = fdl.Partial(lit, p=inner) if btype is fdl.ArgFactory else fdl.Config(lit, p=[inner, inner])
+  doc = serialization.dump_json(cfg)
+  real_mod = btype.__module__
+  legacy = json.loads(doc)
+
+  def rewrite(x):
+    if isinstance(x, dict):
+      if x.get('type') == 'pyref' and x.get('module') == real_mod and x.get('name') == btype.__name__:
+        x['module'] = 'fiddle._src.config'
+      for y in x.values():
+        rewrite(y)
+    elif isinstance(x, list):
+      for y in x:
+        rewrite(y)
+  rewrite(legacy)
+  obs = {'migrated': True, 'type': btype.__name__, 'problems': []}
+  permissive = RecordingPolicy()
+  try:
+    back = serialization.load_json(json.dumps(legacy), pyref_policy=permissive)
+    if scanon(back) != scanon(cfg):
+      obs['problems'].append('a document naming the legacy module does not load to the same configuration')
+  except Exception as e:
+    obs['legacy_load'] = f'raised {type(e).__name__}'       # loud: allowed
+  strict = ModuleDenyPolicy(deny_modules=[real_mod])
+  for name, d in (('current', json.loads(doc)), ('legacy', legacy)):
+    strict.import_calls.clear()
+    try:
+      out = serialization.load_json(json.dumps(d), pyref_policy=strict)
+      asked = {m for m, _ in strict.import_calls}
+      obs['problems'].append(f'{name} document: a symbol was imported from {real_mod}, which the policy denies '
+                             f'(modules put to the policy: {sorted(asked)})')
+    except serialization.PyrefPolicyError:
+      pass
+    except Exception as e:
+      obs['problems'].append(f'{name} document: raised {type(e).__name__} instead of PyrefPolicyError')
+  return obs, None
+
+
 def cases(tier, r):
+  for _ in range(12 if tier == 'quick' else 100):
+    yield 'migrated', {'migrated': True, 'seed': r.getrandbits(48)}
   for _ in range(1200 if tier == 'quick' else 20000):
     yield 'value', {'seed': r.getrandbits(48), 'depth': r.choice([1, 2, 3])}
   for _ in range(400 if tier == 'quick' else 6000):
@@ -330,6 +389,8 @@ def run_shared_key(case):
 
 
 def execute(case):
+  if case.get('migrated'):
+    return run_migrated(case)
   if case.get('shared_key') is not None:
     return run_shared_key(case)
   r = random.Random(case['seed'])
@@ -562,7 +623,7 @@ _drv = {}
 
 def compare(real, model):
   """Correspondence for the two modelled parts: the bytes codec and the policy gate."""
-  if real.get('shared_key'):
+  if real.get('shared_key') or real.get('migrated'):
     return []
   if 'drv' not in _drv:
     _drv['drv'] = common.Driver()
@@ -596,6 +657,10 @@ def compare(real, model):
 
 
 def oracle(case, real):
+  if real.get('migrated'):
+    if real['problems']:
+      return {'what': 'symbols that moved to another module: ' + real['problems'][0], 'problems': real['problems']}
+    return None
   if real.get('shared_key'):
     if real['result'] is not True:
       return {'what': 'an object shared between a dict key and other places is not one object after load_json',
@@ -678,6 +743,8 @@ def classify(case, fail):
 
 
 def nontrivial(case, real):
+  if real.get('migrated'):
+    return ('migrated', case['seed'])
   if real.get('shared_key'):
     return ('shared_key', case['seed'])
   if real['dump'] != 'ok':
